@@ -18,6 +18,12 @@
 //                                    mju_norm3.  "skip <why>" if the model is outside the modelled scope (sleep, flex, damping)
 //   gradpot <eps>                    central finite differences of energy[0] along every dof (mj_integratePos) at the
 //                                    remembered qpos with qvel = 0, and the generalized force qfrc_passive - qfrc_bias -> {json}
+//   staged <item>...                 staged / skipped pipeline calls and state edits on the SAME (already used) mjData, energy flag on,
+//                                    starting from the remembered state.  Items: F0 F1 = mj_forwardSkip(mjSTAGE_NONE, skipsensor 0/1),
+//                                    P0 P1 = mj_forwardSkip(mjSTAGE_POS, .), A0 = mj_forwardSkip(mjSTAGE_VEL, 0), I0 = mj_inverseSkip(NONE),
+//                                    J0 = mj_inverseSkip(mjSTAGE_POS), T = mj_step1, S = mj_step, V v*nv = overwrite qvel,
+//                                    Q dq*nv = mj_integratePos(qpos, dq, 1).  -> [json record per pipeline call]: energy of the used
+//                                    data, energy of a fresh mjData after mj_forward at the same (qpos, qvel), qvel, mj_fullM of the used data
 #include <math.h>
 #include <setjmp.h>
 #include <stdint.h>
@@ -295,6 +301,59 @@ static void op_epline(void) {
   printf("\n");
 }
 
+static mjData* d2 = NULL;
+static void op_staged(char** tok, int n) {
+  int nv = m->nv, nq = m->nq;
+  // validate first
+  for (int i = 1; i < n; ) {
+    const char* t = tok[i];
+    if (!strcmp(t, "V") || !strcmp(t, "Q")) { if (i + nv >= n) { printf("bad-op\n"); return; } i += 1 + nv; }
+    else if (!strcmp(t, "F0") || !strcmp(t, "F1") || !strcmp(t, "P0") || !strcmp(t, "P1") || !strcmp(t, "A0") || !strcmp(t, "I0") ||
+             !strcmp(t, "J0") || !strcmp(t, "T") || !strcmp(t, "S")) i++;
+    else { printf("bad-op\n"); return; }
+  }
+  if (!d2) d2 = mj_makeData(m);
+  m->opt.enableflags |= mjENBL_ENERGY;
+  load_state();
+  double* full = malloc(8 * ((size_t)nv * nv + 1)); double* dq = calloc(nv + 1, 8);
+  printf("[");
+  int first = 1;
+  for (int i = 1; i < n; ) {
+    const char* t = tok[i];
+    if (!strcmp(t, "V")) { for (int k = 0; k < nv; k++) d->qvel[k] = strtod(tok[i + 1 + k], NULL); i += 1 + nv; continue; }
+    if (!strcmp(t, "Q")) {
+      for (int k = 0; k < nv; k++) dq[k] = strtod(tok[i + 1 + k], NULL);
+      mj_integratePos(m, d->qpos, dq, 1.0);
+      i += 1 + nv; continue;
+    }
+    if (!strcmp(t, "F0")) mj_forwardSkip(m, d, mjSTAGE_NONE, 0);
+    else if (!strcmp(t, "F1")) mj_forwardSkip(m, d, mjSTAGE_NONE, 1);
+    else if (!strcmp(t, "P0")) mj_forwardSkip(m, d, mjSTAGE_POS, 0);
+    else if (!strcmp(t, "P1")) mj_forwardSkip(m, d, mjSTAGE_POS, 1);
+    else if (!strcmp(t, "A0")) mj_forwardSkip(m, d, mjSTAGE_VEL, 0);
+    else if (!strcmp(t, "I0")) mj_inverseSkip(m, d, mjSTAGE_NONE, 0);
+    else if (!strcmp(t, "J0")) mj_inverseSkip(m, d, mjSTAGE_POS, 0);
+    else if (!strcmp(t, "T")) mj_step1(m, d);
+    else mj_step(m, d);
+    i++;
+    // reference: a fresh mjData, full mj_forward at the same state
+    mj_resetData(m, d2);
+    memcpy(d2->qpos, d->qpos, sizeof(double) * nq);
+    memcpy(d2->qvel, d->qvel, sizeof(double) * nv);
+    d2->time = d->time;
+    mj_forward(m, d2);
+    mj_fullM(m, d, full);
+    printf(first ? "{" : ",{"); first = 0;
+    printf("\"c\":\"%s\",\"e0\":", t); put_num(d->energy[0]); printf(",\"e1\":"); put_num(d->energy[1]);
+    printf(",\"r0\":"); put_num(d2->energy[0]); printf(",\"r1\":"); put_num(d2->energy[1]); printf(",");
+    put_nums("qvel", d->qvel, nv, 0);
+    put_nums("fullM", full, (long)nv * nv, 1);
+    printf("}");
+  }
+  printf("]\n");
+  free(full); free(dq);
+}
+
 static void op_gradpot(double eps) {
   int nv = m->nv, nq = m->nq;
   m->opt.enableflags |= mjENBL_ENERGY;
@@ -336,6 +395,7 @@ int main(void) {
     if (!strcmp(op, "ke")) op_ke(tok, n);
     else if (!strcmp(op, "model")) {
       if (d) { mj_deleteData(d); d = NULL; }
+      if (d2) { mj_deleteData(d2); d2 = NULL; }
       if (m) { mj_deleteModel(m); m = NULL; }
       if (spec) { mj_deleteSpec(spec); spec = NULL; }
       free(s_qpos); free(s_qvel); s_qpos = s_qvel = NULL;
@@ -348,7 +408,7 @@ int main(void) {
         memcpy(s_qpos, m->qpos0, 8 * m->nq);
         printf("ok %d %d %d %d\n", (int)m->nq, (int)m->nv, (int)m->nbody, (int)mjNPOLY);
       }
-    } else if (strcmp(op, "state") && strcmp(op, "drift") && strcmp(op, "keline") && strcmp(op, "gradpot") && strcmp(op, "epline")) {
+    } else if (strcmp(op, "state") && strcmp(op, "drift") && strcmp(op, "keline") && strcmp(op, "gradpot") && strcmp(op, "epline") && strcmp(op, "staged")) {
       printf("bad-op\n");
     } else if (!m || !d) {
       printf("error no model\n");
@@ -362,6 +422,7 @@ int main(void) {
     } else if (!strcmp(op, "keline") && n == 1) op_keline();
     else if (!strcmp(op, "epline") && n == 1) op_epline();
     else if (!strcmp(op, "gradpot") && n == 2) op_gradpot(strtod(tok[1], NULL));
+    else if (!strcmp(op, "staged") && n >= 2) op_staged(tok, n);
     else printf("bad-op\n");
     jb_armed = 0;
     fflush(stdout);
